@@ -1,9 +1,12 @@
 (* C12 (WP-P) — the price table an RHP3 RPC is validated against is one the host registered and
    that is still in force.  Statements only; every proof is [exact lemma].
+   The model corresponds to rhp/v3/pricetable.go WITH fixes/C12-pricetable-get-checks-expiry.patch
+   (Get compares the table's own expiry); the code before the fix is Model.Legacy.
 
    Link to coq/Formation: every RHP3 handler that validates against a price table obtains it from
-   readPriceTable = priceTableManager.Get (rhp/v3/pricetable.go:107-114; rpc.go:127,171,240,280,482);
-   the [ptable] handed to [validate_renewal3]/[renew3] (HRenew3) is the table [t] of [Get uid now = OGet (Some t)].
+   readPriceTable = priceTableManager.Get (rhp/v3/pricetable.go, readPriceTable; rpc.go:127,171,240,280,482);
+   the [ptable] handed to [validate_renewal3]/[renew3] (HRenew3) is the table [t] of [Get uid now = OGet (Some t)]
+   (handleRPCRenew falls back to a fresh table from the current settings when Get fails).
    A table is registered (Register) only by handleRPCPriceTable after it has been paid for, with the
    settings and block height of that instant (rpc.go:77-123).
 
@@ -11,44 +14,43 @@
    expiry timer's function pruneExpired runs), [Get uid now].
    [sched step d 0 init l]: instants never decrease; the timer function runs only when the timer is
    armed for an instant a <= now; while the timer is armed for [a] no Register/Get executes at an
-   instant >= a + d (d = lateness of the Go runtime in running the timer function; d = 0 is the ideal
-   timer).  [uniq l]: the registered UIDs are distinct (frand.Entropy128).  The code never compares
-   an expiry in Get: what bounds the use of a table is the timer alone, so its lateness d is an
-   explicit term of the bound. *)
+   instant >= a + d (d = lateness of the Go runtime in running the timer function).  [uniq l]: the
+   registered UIDs are distinct (frand.Entropy128).  With the fix neither is a hypothesis of the
+   safety statement; the timer and the list only bound the memory the manager holds. *)
 From HostdBase Require Import Base.
 From HostdPriceTable Require Import Model Proofs.
 
-(* Get returns only a table that was registered, and less than V + d after its registration, V
-   bounding the validities of the history.  This is exact (c12_pt_get_within_own_validity_refuted
-   attains now = n + V + d - 1). *)
-Theorem c12_pt_get_only_unexpired : forall d V l uid now t,
-  uniq l -> sched step d 0 init (l ++ [Get uid now]) -> validity_le V l ->
+(* Get returns only a table that was registered under that UID, strictly before its own expiry -
+   for EVERY history: any instants, any validities, any behaviour of the timer (no [sched]), repeated
+   UIDs included (no [uniq]). *)
+Theorem c12_pt_get_only_unexpired : forall l uid now t,
   snd (step (run l) (Get uid now)) = OGet (Some t) ->
-  exists n v, In (Register uid t n v) l /\ (n <= now)%N /\ (now < n + V + d)%N.
+  exists n v, In (Register uid t n v) l /\ (now < n + v)%N.
 Proof. exact get_only_unexpired. Qed.
 Print Assumptions c12_pt_get_only_unexpired.
 
-(* With the validity the same for all registrations (what pricetable.go:24-26 assumes; true as long
-   as the operator does not change PriceTableValidity): the table is served strictly before its own
-   expiry n + V plus the timer's lateness; with the ideal timer (d = 0) strictly before its expiry. *)
-Theorem c12_pt_get_only_unexpired_constant_validity : forall d V l uid now t,
-  uniq l -> sched step d 0 init (l ++ [Get uid now]) -> validity_const V l ->
-  snd (step (run l) (Get uid now)) = OGet (Some t) ->
-  exists n, In (Register uid t n V) l /\ (n <= now)%N /\ (now < (n + V) + d)%N.
-Proof. exact get_only_unexpired_const. Qed.
-Print Assumptions c12_pt_get_only_unexpired_constant_validity.
+(* Before the fix (Model.Legacy: Get does not look at the expiry) the timer alone bounded the use of
+   a table: served less than V + d after its registration, V bounding the validities of the history
+   and d the timer's lateness ... *)
+Theorem c12_pt_legacy_get_only_unexpired_partial : forall d V l uid now t,
+  uniq l -> sched Legacy.step d 0 init (l ++ [Get uid now]) -> validity_le V l ->
+  snd (Legacy.step (lrun l) (Get uid now)) = OGet (Some t) ->
+  exists n v, In (Register uid t n v) l /\ (n <= now)%N /\ (now < n + V + d)%N.
+Proof. exact legacy_get_only_unexpired. Qed.
+Print Assumptions c12_pt_legacy_get_only_unexpired_partial.
 
-(* Full statement without the constant-validity hypothesis:
-     Get uid now = OGet (Some t) -> exists n v, In (Register uid t n v) l /\ now < n + v + d.
-   FALSE of the faithful model: after the validity was lowered (30 -> 5) a table registered with
-   the short validity sits behind one with the long validity in expirationList and is served, under
-   the ideal timer, until the older one expires (here at 29 >= 0 + 5). *)
-Theorem c12_pt_get_within_own_validity_refuted : exists l uid t n v now,
-  uniq l /\ sched step 0 0 init (l ++ [Get uid now]) /\ In (Register uid t n v) l /\
-  snd (step (run l) (Get uid now)) = OGet (Some t) /\ (n + v <= now)%N /\
-  validity_le 30 l /\ (now = n + 30 + 0 - 1)%N.
-Proof. exact get_past_own_validity. Qed.
-Print Assumptions c12_pt_get_within_own_validity_refuted.
+(* ... and the statement `now < n + v + d` was FALSE of it: after the validity was lowered (30 -> 5)
+   the table registered with the short validity sat behind one with the long validity in
+   expirationList and was served, under the ideal timer, until the older one expired (at 29 >= 0 + 5;
+   the bound above is attained).  The last conjunct: the repaired code refuses that Get.
+   (Fixed in /repo by fixes/C12-pricetable-get-checks-expiry.patch.) *)
+Theorem c12_pt_legacy_get_within_own_validity_refuted : exists l uid t n v now,
+  uniq l /\ sched Legacy.step 0 0 init (l ++ [Get uid now]) /\ In (Register uid t n v) l /\
+  snd (Legacy.step (lrun l) (Get uid now)) = OGet (Some t) /\ (n + v <= now)%N /\
+  validity_le 30 l /\ (now = n + 30 + 0 - 1)%N /\
+  snd (step (run l) (Get uid now)) = OGet None.
+Proof. exact legacy_get_past_own_validity. Qed.
+Print Assumptions c12_pt_legacy_get_within_own_validity_refuted.
 
 (* Conversely a registered table is served until its own expiry (nothing removes it early). *)
 Theorem c12_pt_get_serves_until_expiry : forall d l uid t n v now,
@@ -76,7 +78,7 @@ Theorem c12_pt_first_entry_is_earliest : forall d V l h t e,
 Proof. exact first_is_earliest. Qed.
 Print Assumptions c12_pt_first_entry_is_earliest.
 
-(* Liveness in the model: the timer function, whenever it runs, removes (from the map and from the
+(* Memory (liveness in the model): the timer function, whenever it runs, removes (from the map and from the
    list) every table registered at least V before; with constant validity: every table whose expiry
    has passed.  By c12_pt_timer_armed_for_earliest the timer is running for as long as a table is
    held, c12_pt_tick_enabled_and_removes: its function is enabled from the first entry's expiry on
@@ -96,36 +98,49 @@ Theorem c12_pt_tick_enabled_and_removes : forall l now e rest,
 Proof. exact tick_removes_first. Qed.
 Print Assumptions c12_pt_tick_enabled_and_removes.
 
-(* The seeded change C12-mut7 (Model.Legacy: Register resets the timer on every registration).
-   Statement c12_pt_get_only_unexpired_constant_validity is FALSE of it, for every K: with constant
-   validity, distinct UIDs and the ideal timer, a table is served K after its expiry (a registration
-   per instant keeps pushing the timer). *)
-Theorem c12_pt_legacy_reset_on_every_registration_refuted : forall K : N, exists l uid t n v now,
-  uniq l /\ validity_const v l /\ sched Legacy.step 0 0 init (l ++ [Get uid now]) /\
-  In (Register uid t n v) l /\
-  snd (Legacy.step (lrun l) (Get uid now)) = OGet (Some t) /\ (n + v + K <= now)%N.
-Proof. exact legacy_never_expires. Qed.
-Print Assumptions c12_pt_legacy_reset_on_every_registration_refuted.
+(* The seeded change C12-mut7 (Model.Mut7: Register resets the timer on every registration).
+   c12_pt_every_table_expires is FALSE of it, for every K: with constant validity, distinct UIDs and
+   the ideal timer a table is still held by the manager K after its expiry (a registration per
+   instant keeps pushing the timer).  Written against the code before the fix it was also SERVED then
+   (the C12 violation the change was seeded for); on the repaired code the Get is refused ... *)
+Theorem c12_pt_mut7_reset_on_every_registration_refuted : forall K : N, exists l uid t n v now,
+  uniq l /\ validity_const v l /\ sched Mut7.step 0 0 init (l ++ [Get uid now]) /\
+  In (Register uid t n v) l /\ (n + v + K <= now)%N /\
+  alookup uid (tables (mrun l)) = Some (t, (n + v)%N) /\
+  snd (Mut7.legacy_step (mlrun l) (Get uid now)) = OGet (Some t) /\
+  snd (Mut7.step (mrun l) (Get uid now)) = OGet None.
+Proof. exact mut7_never_expires. Qed.
+Print Assumptions c12_pt_mut7_reset_on_every_registration_refuted.
 
-(* Why [uniq] is a hypothesis: with a repeated UID the expiry of the first registration deletes the
-   second registration's table while it is still in force (not reachable through the RPC: UIDs are
-   128 random bits). *)
+(* ... for c12_pt_get_only_unexpired does not depend on the timer: it holds of the variant too. *)
+Theorem c12_pt_get_only_unexpired_whatever_the_timer : forall l uid now t,
+  snd (Mut7.step (mrun l) (Get uid now)) = OGet (Some t) ->
+  exists n v, In (Register uid t n v) l /\ (now < n + v)%N.
+Proof. exact get_only_unexpired_mut7. Qed.
+Print Assumptions c12_pt_get_only_unexpired_whatever_the_timer.
+
+(* Why [uniq] is a hypothesis of c12_pt_get_serves_until_expiry and of the timer/list theorems: with a
+   repeated UID the expiry of the first registration deletes the second registration's table while
+   it is still in force - it is then refused (not reachable through the RPC: UIDs are 128 random bits). *)
 Theorem c12_pt_repeated_uid_refuted :
   sched step 0 0 init (repeated_uid ++ [Get 1 10]) /\
   snd (step (run repeated_uid) (Get 1 10)) = OGet None /\ (10 < 5 + 10)%N.
 Proof. exact repeated_uid_drops_live_table. Qed.
 Print Assumptions c12_pt_repeated_uid_refuted.
 
-(* non-vacuity: a schedule with lateness 3 in which a table is served after its expiry within the
-   lateness, the timer function then removes two tables at once and re-arms for the third; and the
-   busy history on which the code as it is and the reset-on-every-registration variant differ *)
+(* non-vacuity: a schedule with lateness 3 in which a table is asked for before and after its expiry
+   while the timer function has not run yet (served / refused; served before the fix), the timer
+   function then removes two tables at once and re-arms for the third; and the busy history on which
+   the code and the C12-mut7 variant differ (what the manager still holds) *)
 Example c12_pt_nonvacuous :
-  let l := [Register 1 1 0 10; Register 2 2 4 10; Get 1 12; Register 3 3 12 10; Tick 14] in
+  let l := [Register 1 1 0 10; Register 2 2 4 10; Get 1 9; Get 1 12; Register 3 3 12 10; Tick 14] in
   uniq l /\ validity_const 10 l /\ sched step 3 0 init (l ++ [Get 3 20]) /\
-  snd (step (run [Register 1 1 0 10; Register 2 2 4 10]) (Get 1 12)) = OGet (Some 1%N) /\
+  snd (step (run [Register 1 1 0 10; Register 2 2 4 10]) (Get 1 9)) = OGet (Some 1%N) /\
+  snd (step (run [Register 1 1 0 10; Register 2 2 4 10]) (Get 1 12)) = OGet None /\
+  snd (Legacy.step (lrun [Register 1 1 0 10; Register 2 2 4 10]) (Get 1 12)) = OGet (Some 1%N) /\
   snd (step (run l) (Get 3 20)) = OGet (Some 3%N) /\
   snd (step (run l) (Get 2 20)) = OGet None /\
   tmr (run l) = TArmed 22 /\
-  snd (step (run (busy 4 ++ [Tick 2])) (Get 1 3)) = OGet None /\
-  snd (Legacy.step (lrun (busy 4)) (Get 1 3)) = OGet (Some 1%N).
+  tables (run (busy 4 ++ [Tick 3])) = [(3, (3, 4)); (4, (4, 5))]%N /\
+  length (tables (mrun (busy 4))) = 4%nat.
 Proof. exact nonvacuous_example. Qed.
